@@ -529,6 +529,9 @@ func (t *smallHuffCodeTable) genForDists(codes []huffCode, count []uint16, maxSy
 
 	codeListLen := countTotal[16]
 	if codeListLen == 0 {
+		for i := range t.ShortCodeLookup {
+			t.ShortCodeLookup[i] = 0
+		}
 		return
 	}
 	var codeList [distLen + 2]uint32 /* The +2 is for the extra codes in the static header */
@@ -547,6 +550,11 @@ func (t *smallHuffCodeTable) genForDists(codes []huffCode, count []uint16, maxSy
 		lastLength = distLookupBits + 1
 	}
 	copySize := (1 << (lastLength - 1))
+
+	// Initialize ShortCodeLookup, so invalid lookups process data
+	for i := range t.ShortCodeLookup[:copySize] {
+		t.ShortCodeLookup[i] = 0
+	}
 
 	for ; lastLength <= distLookupBits; lastLength++ {
 		copy(t.ShortCodeLookup[copySize:], t.ShortCodeLookup[:copySize])
